@@ -4,8 +4,8 @@
    emit  : to_string: refused unless the final check passes at every node; children in the schema-ordered view.
    Theorem: a document whose every node's child tags form a word of the node's content model is parsed, and emitting the result
    gives back exactly that document (same elements, same order, same nesting). *)
-From MX Require Import Spec.Particle Spec.Deriv Model.AbsSeq Model.AbsSeqC02 Model.Classes Model.SeqIds.
-From Coq Require Import Arith Lia.
+From MX Require Import Spec.Particle Spec.Deriv Model.AbsSeq Model.AbsSeqC02 Model.Classes Model.SeqMachine Model.SeqIds.
+From Coq Require Import Arith Lia Permutation.
 
 Inductive xdoc := XNode (tag:positive) (kids:list xdoc).
 Inductive elt := ENode (tag:positive) (state:sst) (children:list elt).
@@ -114,4 +114,53 @@ Section Doc.
   (* C08 at document level: what the library emits is read back by the parser as an element that emits the same document *)
   Theorem emitted_roundtrips : forall e d, elt_ok e -> emit e = Some d -> exists e', parse d = Some e' /\ emit e' = Some d.
   Proof. intros e d O E. apply doc_roundtrip. eapply emitted_is_valid; eauto. Qed.
+
+  (* ---- any document, valid or not: if the parser returns and the result serialises, nothing was lost, invented or moved to another
+     parent: at every node the emitted children are a permutation of the children read (each related recursively) ---- *)
+  Inductive same_content : xdoc -> xdoc -> Prop :=
+  | SC t k k' k'' : Forall2 same_content k k'' -> Permutation k'' k' -> same_content (XNode t k) (XNode t k').
+  Lemma addw_perm w : forall n s s', addw w n s = Some s' -> Permutation (ordered s') (ordered s ++ tagged n w).
+  Proof.
+    induction w as [|a w IH]; intros n s s' E; simpl in E.
+    - injection E as <-. unfold tagged. simpl. rewrite app_nil_r. apply Permutation_refl.
+    - destruct (add n a s) as [s1|] eqn:E1; [|discriminate]. specialize (IH _ _ _ E).
+      eapply Permutation_trans; [exact IH|]. unfold tagged. simpl.
+      eapply Permutation_trans; [apply Permutation_app_tail; apply ordered_add; exact E1|]. simpl.
+      apply Permutation_middle.
+  Qed.
+  Lemma pick_perm (ds:list (option xdoc)) : forall l1 l2, Permutation l1 l2 -> forall r1, all_some (map (pick ds) l1) = Some r1 ->
+    exists r2, all_some (map (pick ds) l2) = Some r2 /\ Permutation r1 r2.
+  Proof.
+    induction 1 as [|x l1 l2 P IH|x y l|l1 l2 l3 P1 IH1 P2 IH2]; intros r1 E; simpl in *.
+    - injection E as <-. exists []. auto.
+    - destruct (pick ds x) as [d|]; [|discriminate]. destruct (all_some (map (pick ds) l1)) as [r|] eqn:Er; [|discriminate]. injection E as <-.
+      destruct (IH r eq_refl) as (r2 & E2 & P2). rewrite E2. exists (d :: r2). auto.
+    - destruct (pick ds y) as [dy|]; [|discriminate]. destruct (pick ds x) as [dx|]; [|discriminate].
+      destruct (all_some (map (pick ds) l)) as [r|]; [|discriminate]. injection E as <-. exists (dx :: dy :: r). split; auto. apply perm_swap.
+    - destruct (IH1 r1 E) as (r2 & E2 & Q2). destruct (IH2 r2 E2) as (r3 & E3 & Q3). exists r3. split; auto. eapply Permutation_trans; eauto.
+  Qed.
+  Theorem parse_loses_nothing : forall d e d', parse d = Some e -> emit e = Some d' -> same_content d d'.
+  Proof.
+    induction d using xdoc_ind2. intros e d' P E. simpl in P.
+    destruct (tpl t) as [st|]; [|discriminate]. destruct (all_some (map parse k)) as [es|] eqn:Pes; [|discriminate].
+    destruct (addw (map tag_of k) 0 (init st)) as [s|] eqn:A; [|discriminate]. injection P as <-. simpl in E.
+    destruct (required true s); [|discriminate]. destruct (all_some (map (pick (map emit es)) (ordered s))) as [kids|] eqn:Pk; [|discriminate]. injection E as <-.
+    pose proof (addw_perm _ _ _ _ A) as Perm. rewrite (nonempty_false_ordered _ (nonempty_init st)) in Perm. simpl in Perm.
+    destruct (pick_perm (map emit es) _ _ Perm kids Pk) as (kids0 & Pk0 & Q).
+    (* in file order every child was parsed and emits: kids0 are those emissions *)
+    apply all_some_spec in Pes. apply all_some_spec in Pk0.
+    assert (G: forall (k0:list xdoc) es0 (pre:list elt) n kids1, Forall (fun x => forall e d', parse x = Some e -> emit e = Some d' -> same_content x d') k0 ->
+               Forall2 (fun o x => o = Some x) (map parse k0) es0 -> n = length pre ->
+               Forall2 (fun o x => o = Some x) (map (pick (map emit (pre ++ es0))) (tagged n (map tag_of k0))) kids1 -> Forall2 same_content k0 kids1).
+    { clear. induction k0 as [|x r IHr]; intros es0 pre n kids1 HF F1 N F2; inversion F1 as [|o e0 l es1 Ho Hr]; subst; unfold tagged in F2; simpl in F2.
+      - inversion F2. constructor.
+      - inversion F2 as [|o2 d0 l2 kids2 Hp Hk]; subst. inversion HF as [|? ? Hx HFr]; subst.
+        unfold pick in Hp. simpl in Hp. rewrite nth_error_map, nth_error_app2 in Hp by lia. rewrite Nat.sub_diag in Hp. simpl in Hp.
+        destruct (emit e0) as [de|] eqn:Ee; [|discriminate]. injection Hp as <-.
+        constructor; [apply (Hx e0 de); auto|].
+        apply (IHr es1 (pre ++ [e0]) (S (length pre)) kids2); auto.
+        + rewrite app_length. simpl. lia.
+        + rewrite <- app_assoc. simpl. exact Hk. }
+    econstructor; [|apply Permutation_sym; exact Q]. apply (G k es [] 0 kids0); auto.
+  Qed.
 End Doc.
